@@ -1,6 +1,7 @@
 import DracoProofs.EbEncStages
 import DracoProofs.EbAttSection
 import DracoProofs.EbSpecCheck
+import DracoProofs.EbCtrlInv
 /-
   Assembly of the stream-level statement: the attribute section the ENCODER model writes is the byte layout
   `AttPlan.bytes` of the plan made of the encoder's items and the decoder's sequences / point maps; hence
@@ -176,6 +177,21 @@ theorem chain_shape {ch : EbChoices} {o : EbOpts} {g : Geometry} {conn : ConnEnc
     · exact ctrlShape_of_run ch o g conn cs anp posId e p _ (hg1 e) hc
     · exact ih c' hm
 
+theorem hg1_of_generate {o : EbOpts} {atts : Array Attribute} {np : Nat} {conn : ConnEnc} {cs : Array Controller}
+    (h : generateControllers o atts np conn = .ok cs) :
+    ∀ e : Nat, (cs[e]!).encs.toList.map (·.attId) = (cs[e]!).attIds.toList := by
+  intro e
+  by_cases he : e < cs.size
+  · have hm : cs[e]! ∈ cs := by
+      rw [getElem!_pos cs e he]; exact Array.getElem_mem he
+    rw [generateControllers_encs_eq h _ hm]
+    have : ((fun x : SeqEncSt => x.attId) ∘ mkSeqEnc o atts np) = id := by funext a; rfl
+    simp [this]
+  · have : cs[e]! = default := by
+      rw [getElem!_neg cs e he]
+    rw [this]
+    rfl
+
 /-- **the complete decoder on the encoder's stream**: given the connectivity link (`hconn`: the decoder's
     connectivity stage reads the encoder's connectivity bytes and builds `mesh`) and `PlanOK` for the plan made of the
     encoder's items and the decoder's sequences / point maps, `decodeGeometry` consumes exactly the stream and returns
@@ -185,8 +201,6 @@ theorem eb_stream_decodes (ch : EbChoices) (g : Geometry) (md : Option GeometryM
     (opts : DecOpts) (mesh : Mesh) (sides : List (SeqOut × Array Nat)) (hsides : enc.couts.size = sides.length)
     (hconn : ∀ coder, traversalCoder o g.faces.length = some coder →
       Runs decodeConnectivity 514 ([coder] ++ enc.conn.bytes) mesh 514)
-    (hg1 : ∀ e : Nat, (enc.controllers[e]!).encs.toList.map (·.attId) = (enc.controllers[e]!).attIds.toList)
-    (hsize : enc.order.size = enc.controllers.size)
     (hok : PlanOK opts mesh (planOf o g.atts.toArray enc.conn enc.controllers enc.couts.toList sides)) :
     Runs (decodeGeometry opts) 0 enc.bytes
       ⟨{ isMesh := true, numPoints := mesh.numPoints, faces := facesOf mesh,
@@ -194,7 +208,9 @@ theorem eb_stream_decodes (ch : EbChoices) (g : Geometry) (md : Option GeometryM
   obtain ⟨mdBytes, coder, posFaces, acv, cs, couts, h1, h2, h3, h4, h5, h6, h7, h8, h9, h10, h11, h12, h13, h14⟩ :=
     (encodeEdgebreaker_stages ch g md o enc henc).stages
   have hchain := encodeControllers_chain ch o g enc.conn cs _ _ _ _ _ h8
-  rw [h9] at hg1 hsize hok
+  have hg1 := hg1_of_generate h5
+  have hsize := (rearrangeEncoders_order h7).1
+  rw [h9] at hok
   rw [h10] at hsides hok
   simp only [] at hok
   have hshape := chain_shape (g := g) hg1 hchain
@@ -215,7 +231,6 @@ def planGeometry (opts : DecOpts) (mesh : Mesh) (plan : AttPlan) : Geometry :=
     * `hok`, `hokS` — `PlanOK` of the plan made of the encoder's items and the decoder's sequences / point maps, for the
       ordinary and the transform-skipped decode (its value-block fields are `eb_value_block_conditional_iso`, its
       parameter fields the sequential transform-parameter lemmas, its sequence / map fields the decoder's own runs),
-    * `hg1`, `hsize` — shape of the controllers (`generateControllers`, `rearrangeEncoders`),
     * the FACE CORRESPONDENCE `σ` / `hface` / `hcover` — every decoded face is, corner tuple by corner tuple, an input
       face (`EbTuples.row_corr_kind0…3` per attribute + `canonTri_rot`), no two decoded faces come from the same input
       face, and every non-degenerate input face is decoded (`processed` covers them),
@@ -227,8 +242,6 @@ theorem eb_roundtrip_conditional (ch : EbChoices) (g : Geometry) (md : Option Ge
     (mesh : Mesh) (sides : List (SeqOut × Array Nat)) (hsides : enc.couts.size = sides.length)
     (hconn : ∀ coder, traversalCoder o g.faces.length = some coder →
       Runs decodeConnectivity 514 ([coder] ++ enc.conn.bytes) mesh 514)
-    (hg1 : ∀ e : Nat, (enc.controllers[e]!).encs.toList.map (·.attId) = (enc.controllers[e]!).attIds.toList)
-    (hsize : enc.order.size = enc.controllers.size)
     (plan : AttPlan) (hplan : plan = planOf o g.atts.toArray enc.conn enc.controllers enc.couts.toList sides)
     (hok : PlanOK {} mesh plan) (hokS : PlanOK { skip := allTypes } mesh plan)
     (req : Spec.QuantReq) (ms : List Spec.Matched)
@@ -249,10 +262,9 @@ theorem eb_roundtrip_conditional (ch : EbChoices) (g : Geometry) (md : Option Ge
         (some ⟨planGeometry { skip := allTypes } mesh plan, md⟩, st') ∧ st'.rest = extra ∧
       Spec.checkCore .edgebreaker req g (planGeometry {} mesh plan) (planGeometry { skip := allTypes } mesh plan) = true := by
   subst hplan
-  obtain ⟨st, a1, a2, _⟩ := (eb_stream_decodes ch g md o enc henc hmd {} mesh sides hsides hconn hg1 hsize hok).run
+  obtain ⟨st, a1, a2, _⟩ := (eb_stream_decodes ch g md o enc henc hmd {} mesh sides hsides hconn hok).run
     { rest := enc.bytes ++ extra } extra rfl rfl
-  obtain ⟨st', b1, b2, _⟩ := (eb_stream_decodes ch g md o enc henc hmd { skip := allTypes } mesh sides hsides hconn hg1
-    hsize hokS).run { rest := enc.bytes ++ extra } extra rfl rfl
+  obtain ⟨st', b1, b2, _⟩ := (eb_stream_decodes ch g md o enc henc hmd { skip := allTypes } mesh sides hsides hconn hokS).run { rest := enc.bytes ++ extra } extra rfl rfl
   refine ⟨st, st', a1, a2, b1, b2, ?_⟩
   exact checkCore_edgebreaker_of_faces req g _ _ ms hlen huid hms σ hσlt hσinj hface hcover
 
